@@ -499,6 +499,18 @@ V("TB5-direction-swapped", "C18", "TB5",
   ("scaling.py", "        if self.scaling_direction == 1:\n            return 1000.0", "        if self.scaling_direction != 1:\n            return 1000.0"))
 
 # ---------------------------------------------------------------- C11 (SR1, TR1, DL1, SB1)
+V("TR1-pair-built-swapped", "C11", "TR1",
+  ("daqmx.py", "            dimensions[buffer_index] = (updated_num_values, current_buffer_shape[1])\n",
+   "            dimensions[buffer_index] = (current_buffer_shape[1], updated_num_values)\n"))
+V("TR1-columns-up-to-size", "C11", "TR1",
+  ("daqmx.py", "                        range(byte_offset, byte_offset + scaler_size))\n", "                        range(byte_offset, scaler_size))\n"))
+V("TR1-scalers-by-object-position", "C11", "TR1",
+  ("daqmx.py", "                    if scaler.raw_buffer_index == raw_buffer_index]\n", "                    if scaler.raw_buffer_index == i]\n"))
+V("TR1-strided-view-instead-of-columns", "C11", "TR1",
+  ("daqmx.py", "                    this_scaler_data = combined_data[:, byte_columns].ravel()\n", "                    this_scaler_data = combined_data.ravel()[byte_offset::raw_data_width]\n"))
+V("TR1-chunk-size-sums-widths-only", "C11", "TR1",
+  ("daqmx.py", "    return sum((num_values * width) for (num_values, width) in get_buffer_dimensions(ordered_objects))\n",
+   "    return sum((width * width) for (num_values, width) in get_buffer_dimensions(ordered_objects))\n"))
 V("TR1-swapped-dims", "C11", "TR1",
   ("daqmx.py", "            combined_data = read_interleaved_segment_bytes(file, raw_data_width, chunk_size)", "            combined_data = read_interleaved_segment_bytes(file, chunk_size, raw_data_width)"))
 V("DL1-bit-offset-wrong-modulus", "C11", "DL1",
